@@ -149,18 +149,20 @@ func secondSchema(d dmodel.Dialect) string {
 // Input is one seeded input: a current model (nil = empty schema), a desired model, optionally a
 // second schema on each side (multi-schema realm).
 type Input struct {
-	Name    string
-	Dialect dmodel.Dialect
-	From    *dmodel.Model // nil: empty
-	To      *dmodel.Model // nil: empty
-	From2   *dmodel.Model // second schema of the current realm (nil: single-schema input)
-	To2     *dmodel.Model // second schema of the desired realm
-	Realm   bool          // diff with RealmDiff on realms instead of SchemaDiff
-	RawFrom string        // hand written (multi-schema) HCL document evaluated as the current realm
-	RawTo   string        // … as the desired realm (Realm inputs; see rawdocs.go)
-	Scoped  bool          // plan with an empty schema qualifier (plan scoped to the connected schema)
-	Indent  string        // PlanOptions.Indent
-	Edits   []string      // ids of the edit walk From -> To (documentation only)
+	Name      string
+	Dialect   dmodel.Dialect
+	From      *dmodel.Model // nil: empty
+	To        *dmodel.Model // nil: empty
+	From2     *dmodel.Model // second schema of the current realm (nil: single-schema input)
+	To2       *dmodel.Model // second schema of the desired realm
+	Realm     bool          // diff with RealmDiff on realms instead of SchemaDiff
+	RawFrom   string        // hand written (multi-schema) HCL document evaluated as the current realm
+	RawTo     string        // … as the desired realm (Realm inputs; see rawdocs.go)
+	FilesFrom []HFile       // the current state as SEVERAL HCL files evaluated as one source (files.go)
+	FilesTo   []HFile       // the desired state as several HCL files
+	Scoped    bool          // plan with an empty schema qualifier (plan scoped to the connected schema)
+	Indent    string        // PlanOptions.Indent
+	Edits     []string      // ids of the edit walk From -> To (documentation only)
 }
 
 // walk applies k seeded catalogue edits; edits are drawn until the walk has k steps or the catalogue
